@@ -395,8 +395,11 @@ func BERBool(v bool) []byte {
 
 func LDAPMsg(id int, op []byte) []byte { return BER(0x30, BERInt(id), op) }
 
-func LDAPBind(id int, dn, pw string) []byte {
-	return LDAPMsg(id, BER(0x60, BERInt(3), BERStr(dn), BER(0x80, []byte(pw))))
+func LDAPBind(id int, dn, pw string) []byte { return LDAPBindV(id, 3, dn, pw) }
+
+// LDAPBindV is a simple bind that announces the given protocol version.
+func LDAPBindV(id, version int, dn, pw string) []byte {
+	return LDAPMsg(id, BER(0x60, BERInt(version), BERStr(dn), BER(0x80, []byte(pw))))
 }
 
 func LDAPSearch(id int, base string, filter []byte, attrs ...string) []byte {
